@@ -36,7 +36,7 @@ def use_decoy(t, rng):
             for f in n["f"]:
                 if f[1]["k"] == "sc":
                     f[1] = {"k": "sc", "t": swap[f[1]["t"]]}
-        elif n["k"] == "ar" and n["it"]["k"] == "sc":
+        elif n["k"] == "ar" and n["it"]["k"] == "sc" and not n.get("anon"):
             n["it"] = {"k": "sc", "t": swap[n["it"]["t"]]}
             if len(n["dims"]) > 1:
                 n["ord"] = list(reversed(n["ord"]))
